@@ -118,7 +118,7 @@ pub fn gen_model(rng: &mut Rng, size: usize, with_range: bool) -> Value {
             0 => { line += if rng.chance(1, 8) { 64 * rng.range(1, 3) } else { 1 + rng.range(0, 3) }; col = rng.range(0, 5); }
             1 | 2 => {}                                   // same position as the previous token
             3 => {
-                // a column delta from every VLQ digit-count class; columns stay below 2^29
+                // a column delta from every VLQ digit-count class; columns stay below 2^28 (a map composed with itself doubles them; the judge holds numbers below 2^30)
                 let d = 1 + vlq_class(rng, 6);
                 if col + d >= (1 << 28) { line += 1; col = d.min((1 << 28) - 1); } else { col += d; }
             }
